@@ -265,7 +265,8 @@ PoolC08 == <<
   [W("/ab-") EXCEPT !.party = "3p"], [W("/ab_") EXCEPT !.party = "1p"],
   [W("/ab-") EXCEPT !.dom = {"ba.com", "abb.com"}], [W("/ab_") EXCEPT !.ndom = {"ba.com"}],
   [W("/ab.") EXCEPT !.dom = {"ba.com"}, !.ndom = {"s.ba.com"}],
-  [W("/ab-") EXCEPT !.tag = "t1"], [W("/ab-") EXCEPT !.tag = "t2"], [W("/ab_") EXCEPT !.exc = TRUE, !.tag = "t2"], [W("/ab.") EXCEPT !.important = TRUE, !.tag = "t1"],
+  [W("/ab-") EXCEPT !.tag = "t1"], [W("/ab-") EXCEPT !.tag = "t2"], [W("/ab_") EXCEPT !.exc = TRUE, !.tag = "t2"],
+  [W("/ab_") EXCEPT !.tag = "t1"],      \* fusable with '/ab-$tag=t1': the tagged list is rebuilt (and fused or not) on load [W("/ab.") EXCEPT !.important = TRUE, !.tag = "t1"],
   [W("ab.ba^") EXCEPT !.left = "dpipe", !.mkind = "redirect", !.mval = "r1", !.prio = "10"],
   [W("/ab-") EXCEPT !.mkind = "redirect-rule", !.mval = "r2"],
   [W("ab.ba^") EXCEPT !.left = "dpipe", !.exc = TRUE, !.mkind = "redirect", !.mval = "r1"],
